@@ -27,7 +27,7 @@ def run(chk, tier):
         # R07.2 fallback mode: set by the constructors, never written
         L.clone_and_ctor(chk, F, 'R07.2', cfg)
         acc = L.field_accesses(F, 'state::SharedState', 'fallback_mode')
-        writers = sorted(set(b.defp for b, _, k, _ in acc if k in ('write', 'construct')))
+        writers = L.attributed(F, acc, kinds=('write', 'construct'))
         chk.ob('R07.2', 'fallback_mode is only written when the shared state is constructed', writers == ['state::SharedState::new'], config=cfg,
                site='field:fallback_mode', what='writers of fallback_mode', found=writers, expected=['state::SharedState::new'])
         # R07.3 Continuation::report
